@@ -90,6 +90,10 @@ Proof. exact set_query_reparses. Qed.
 Theorem C10_set_fragment_reparses : forall u v r, wf_url u -> set_fragment v = Ok r -> no_pct (oapp r) = true ->
   did_url_parse (did_url_to_string (with_frag u r)) = Ok (with_frag u r).
 Proof. exact set_fragment_reparses. Qed.
+(* the route to a CoreDID that skips CoreDID::parse's guards (TryFrom<BaseDIDUrl>, which is also what serde uses): outside K_pct it
+   accepts ONLY what CoreDID::parse accepts, with the same components - so every route yields the verbatim, decomposable value *)
+Theorem C10_did_unguarded_route_sound : forall s m i, no_pct s = true -> core_did_from_base s = Ok (m, i) -> core_did_parse s = Ok (m, i).
+Proof. exact core_did_from_base_sound. Qed.
 (* outside K_pct DIDUrl::parse is total: it never panics *)
 Theorem C10_url_total_pct_free : forall s, no_pct s = true -> did_url_parse s <> Panic.
 Proof. exact did_url_total_pct_free. Qed.
@@ -130,3 +134,4 @@ Print Assumptions C10_set_path_reparses.
 Print Assumptions C10_set_query_reparses.
 Print Assumptions C10_set_fragment_reparses.
 Print Assumptions C10_url_total_pct_free.
+Print Assumptions C10_did_unguarded_route_sound.
